@@ -140,8 +140,8 @@ type fState struct {
 	Op      fOp
 	When    string
 	// undo bookkeeping
-	AfterUndo bool  // at least one undo has happened so far
-	JustUndid int   // number of blocks undone by this op
+	AfterUndo bool // at least one undo has happened so far
+	JustUndid int  // number of blocks undone by this op
 	LastRec   *BlockRec
 	Failed    bool
 	TouchedBy map[*Inst]bool // instances the op applied to
